@@ -520,7 +520,8 @@ impl Scenario {
             13 => { blk.proposer_action = match blk.proposer_action { None => Some(ProposerAction { fee_multiplier_delta: 0, reward_dest: Address(HashVal::default()) }), Some(_) => None }; what = "toggle action".into() }
             14 => { if let Some(pa) = blk.proposer_action.as_mut() { pa.fee_multiplier_delta = pa.fee_multiplier_delta.wrapping_add(64); what = "delta".into() } }
             15 => { if let Some(pa) = blk.proposer_action.as_mut() { pa.reward_dest.0 .0[0] ^= 1; self.dict.cov(pa.reward_dest); what = "reward_dest".into() } }
-            _ => { if let Some(t) = blk.transactions.iter().next().cloned() { blk.transactions.remove(&t); let mut t2 = t.clone(); t2.sigs.push(Bytes::from(r.bytes(3))); blk.transactions.insert(t2); what = "tx sigs".into() } }
+            16 => { if let Some(t) = blk.transactions.iter().next().cloned() { blk.transactions.remove(&t); let mut t2 = t.clone(); t2.sigs.push(Bytes::from(r.bytes(3))); blk.transactions.insert(t2); what = "tx sigs".into() } else { what = "tx sigs (none)".into() } }
+            _ => { if let Some(t) = blk.transactions.iter().next().cloned() { let mut t2 = t.clone(); t2.sigs.push(Bytes::from(r.bytes(3))); blk.transactions.insert(t2); what = "add sig-variant of a tx".into() } else { what = "add sig-variant (none)".into() } }
         }
         let order: Vec<Transaction> = blk.transactions.iter().cloned().collect();
         let names = self.txlist(&order);
@@ -618,6 +619,9 @@ impl Scenario {
                 if let Some(ci) = self.covs.get(&c.coin_data.covhash) { t.covenants.push(Bytes::from(ci.bytes.clone())); }
             }
         }
+        // sometimes list a covenant twice, or carry an unused / undecodable one (all are charged for)
+        if !t.covenants.is_empty() && r.chance(1, 6) { let c0 = t.covenants[0].clone(); t.covenants.push(c0); self.bump("tx_duplicate_covenant"); }
+        if r.chance(1, 12) { t.covenants.push(Bytes::from(Covenant::from_ops(&[OpCode::Loop(3, 1), OpCode::Noop, OpCode::PushI(U256::ONE)]).to_bytes().to_vec())); self.bump("tx_unused_covenant"); }
         let mult = self.ustate().verif_fee_multiplier();
         let in_mel: u128 = inputs.iter().filter(|(_, c)| c.coin_data.denom == Denom::Mel).map(|(_, c)| c.coin_data.value.0).sum();
         let out_mel: u128 = t.outputs.iter().filter(|o| o.denom == Denom::Mel).map(|o| o.value.0).sum();
@@ -898,7 +902,7 @@ pub fn run_scenario(name: &str, r: &mut Rng, nblocks: usize) -> Scenario {
             for _ in 0..r.range(0, 3) { if let Some(t) = sc.gen_tx(r, &w, &ex) { for i in &t.inputs { ex.insert(*i); } txs.push(t); } }
             sc.mode = saved;
             let a = gen_action(r, &mut sc);
-            let mutate = if r.chance(1, 2) { 0 } else { r.range(1, 16) as u32 };
+            let mutate = if r.chance(1, 2) { 0 } else { r.range(1, 17) as u32 };
             let code = sc.op_apply_block(&txs, a, mutate, r);
             if code == 999 { sc.bump("block_not_buildable"); }
             if code != 0 { // fall back so the history goes on
@@ -922,7 +926,18 @@ pub fn run_scenario(name: &str, r: &mut Rng, nblocks: usize) -> Scenario {
                     let h = parent.hash_nosigs();
                     let height = sc.ustate().verif_height();
                     let vw = Wallet { coins: parent.outputs.iter().enumerate().filter(|(_, o)| o.covhash != Address::coin_destroy()).map(|(i, o)| { let mut cd = o.clone(); if cd.denom == Denom::NewCustom { cd.denom = Denom::Custom(h); } (CoinID::new(h, i as u8), CoinDataHeight { coin_data: cd, height }) }).collect() };
-                    if let Some(t) = sc.gen_normal(r, &vw, &HashSet::new()) { if r.chance(1, 2) { txs.push(t); } else { txs.insert(0, t); } sc.bump("dependent_tx"); }
+                    if let Some(t) = sc.gen_normal(r, &vw, &HashSet::new()) {
+                        if r.chance(1, 5) {
+                            // a second, different transaction spending the same in-batch coins
+                            if let Some(t2) = sc.gen_normal(r, &vw, &HashSet::new()) { if t2.hash_nosigs() != t.hash_nosigs() && t2.inputs.iter().any(|i| t.inputs.contains(i)) { txs.push(t2); sc.bump("inbatch_double_spend"); } }
+                        } else if r.chance(1, 6) {
+                            // the same in-batch coin listed twice by one transaction
+                            let ins: Vec<(CoinID, CoinDataHeight)> = vw.coins.iter().filter(|(id, _)| t.inputs.contains(id)).cloned().collect();
+                            if let Some(first) = ins.first().cloned() { let mut ins2 = ins.clone(); ins2.push(first); let mut t3 = Transaction::new(TxKind::Normal); t3.outputs = t.outputs.iter().filter(|o| o.denom != Denom::Mel).cloned().collect(); let t3 = sc.finish_tx(r, t3, &ins2, 0, 0); txs.push(t3); sc.bump("inbatch_same_input_twice"); }
+                        }
+                        if r.chance(1, 2) { txs.push(t); } else { txs.insert(0, t); }
+                        sc.bump("dependent_tx");
+                    }
                 }
                 if r.chance(1, 4) && !txs.is_empty() { let i = r.below(txs.len() as u64) as usize; let m = sc.mutate_tx(r, &txs[i].clone(), &w); txs[i] = m; sc.bump("mutated_tx"); }
                 if r.chance(1, 10) && !txs.is_empty() { let t = txs[0].clone(); txs.push(t); }
@@ -1194,6 +1209,72 @@ pub fn directed(r: &mut Rng) -> Vec<Scenario> {
             sc.op_batch(&[t]);
             sc.block_end(None);
         }
+        out.push(sc);
+    }
+    // regression for seeded defects: in-batch coins spent twice; duplicated covenants; signature variants in a block
+    {
+        let mut sc = base("d_inbatch_dspend", r, NetID::Custom02, 1000);
+        sc.block_end(None);
+        let at = sc.at();
+        let m = sc.coin_of(Denom::Mel, 1 << 40).unwrap();
+        let a = sc.mk(r, TxKind::Normal, &[m], vec![sc.cd(at, 1 << 35, Denom::Mel)], vec![]);
+        let x = (CoinID::new(a.hash_nosigs(), 0), CoinDataHeight { coin_data: a.outputs[0].clone(), height: sc.ustate().verif_height() });
+        let b = sc.mk(r, TxKind::Normal, &[x.clone()], vec![sc.cd(at, 1 << 30, Denom::Mel)], vec![1]);
+        let c = sc.mk(r, TxKind::Normal, &[x.clone()], vec![sc.cd(at, 1 << 31, Denom::Mel)], vec![2]);
+        sc.op_batch(&[a.clone(), b.clone(), c.clone()]);
+        sc.op_batch(&[b.clone(), a.clone(), c]);
+        let mut d = Transaction::new(TxKind::Normal);
+        d.outputs = vec![sc.cd(at, 1 << 35, Denom::Mel)];
+        let d = sc.finish_tx(r, d, &[x.clone(), x.clone()], 0, 0);
+        sc.op_batch(&[a.clone(), d]);
+        sc.op_batch(&[a, b]);
+        sc.block_end(None);
+        out.push(sc);
+    }
+    {
+        let mut sc = base("d_dup_covenant", r, NetID::Custom02, 70000);
+        sc.block_end(None);
+        let at = sc.at();
+        for copies in [2usize, 3] {
+            let m = sc.coin_of(Denom::Mel, 1 << 40).unwrap();
+            let mut t = Transaction::new(TxKind::Normal);
+            t.outputs = vec![sc.cd(at, 1 << 30, Denom::Mel)];
+            // fee computed by hand at exactly the minimum, with the covenant listed `copies` times
+            t.inputs = vec![m.0];
+            let cov = Covenant::from_ops(&[OpCode::PushI(U256::ONE), OpCode::PushI(U256::ONE), OpCode::Add, OpCode::Hash(500), OpCode::PushI(U256::ONE)]);
+            let _ = cov;
+            t.covenants = vec![Bytes::from(Covenant::always_true().to_bytes().to_vec()); copies];
+            t.covenants.push(Bytes::from(Covenant::from_ops(&[OpCode::Hash(60000), OpCode::Hash(60000)]).to_bytes().to_vec()));
+            t.covenants.push(Bytes::from(Covenant::from_ops(&[OpCode::Hash(60000), OpCode::Hash(60000)]).to_bytes().to_vec()));
+            let in_mel = m.1.coin_data.value.0;
+            t.outputs.push(sc.cd(at, 0, Denom::Mel));
+            let mult = sc.ustate().verif_fee_multiplier();
+            let mut fee = 0u128;
+            for _ in 0..4 { t.fee = CoinValue(fee); t.outputs[1].value = CoinValue(in_mel - (1 << 30) - fee); fee = t.base_fee(mult, 0, melvm::covenant_weight_from_bytes).0; }
+            t.fee = CoinValue(fee); t.outputs[1].value = CoinValue(in_mel - (1 << 30) - fee);
+            // one unit less must be rejected
+            let mut u = t.clone(); u.fee.0 -= 1; u.outputs[1].value.0 += 1;
+            sc.op_batch(&[u]);
+            sc.op_batch(&[t.clone()]);
+        }
+        let a = Some(ProposerAction { fee_multiplier_delta: 5, reward_dest: sc.at() });
+        sc.block_end(a);
+        out.push(sc);
+    }
+    {
+        let mut sc = base("d_block_sigvariant", r, NetID::Custom02, 1000);
+        sc.op_seal(None);
+        let at = sc.at();
+        let parent = match &sc.mode { Mode::S(s) => s.clone(), _ => unreachable!() };
+        let saved = std::mem::replace(&mut sc.mode, Mode::U(parent.next_unsealed()));
+        let m = sc.coin_of(Denom::Mel, 1 << 40).unwrap();
+        let t = sc.mk(r, TxKind::Normal, &[m], vec![sc.cd(at, 1 << 30, Denom::Mel)], vec![]);
+        sc.mode = saved;
+        let a = Some(ProposerAction { fee_multiplier_delta: 1, reward_dest: at });
+        sc.op_apply_block(&[t.clone()], a, 17, r);
+        sc.op_apply_block(&[t.clone()], a, 16, r);
+        sc.op_apply_block(&[t.clone()], a, 12, r);
+        sc.op_apply_block(&[t], a, 0, r);
         out.push(sc);
     }
     // F25: a pool created with an empty side, then a second deposit
